@@ -108,11 +108,19 @@ impl BuildOptimiser {
     }
 
     pub fn build(&self) -> MCOptimiser {
+        // An inner loop is at least one step long, which also keeps the loop count
+        // `steps / inner_steps` defined when `steps` or `inner_steps` is zero.
+        let inner_steps = u64::max(1, u64::min(self.inner_steps, self.steps));
+        // The temperature is reduced once per inner loop, so that is the number of times the
+        // factor taking kt_start to kt_finish gets applied.
+        let cooling_steps = u64::max(1, self.steps / inner_steps);
         let kt_ratio = match (self.kt_ratio, self.kt_finish) {
             (Some(ratio), _) => 1. - ratio,
             // A zero temperature stays zero, there is no finite factor taking it anywhere else
             (None, Some(_)) if self.kt_start == 0. => 1.,
-            (None, Some(finish)) => f64::powf(finish / self.kt_start, 1. / self.steps as f64),
+            (None, Some(finish)) => {
+                f64::powf(finish / self.kt_start, 1. / cooling_steps as f64)
+            }
             (None, None) => 0.1,
         };
         debug!("Setting kt_ratio to: {}", kt_ratio);
@@ -126,9 +134,7 @@ impl BuildOptimiser {
             kt_ratio,
             max_step_size: self.max_step_size,
             steps: self.steps,
-            // An inner loop is at least one step long, which also keeps the loop count
-            // `steps / inner_steps` defined when `steps` or `inner_steps` is zero.
-            inner_steps: u64::max(1, u64::min(self.inner_steps, self.steps)),
+            inner_steps,
             seed,
             convergence: self.convergence,
         }
